@@ -447,11 +447,19 @@ def gen_ni_history(seed):
             )
             if models[ops[-1]["model"]].get("calc1") and rng.chance(0.3):
                 ops[-1]["calc"] = 1
-            if rng.chance(0.12):
+            if rng.chance(0.16):
                 # the gradient code's exchange-correlation matrices (what Gradients.get_veff asks
                 # the calculator's integrator for), for one or several density matrices, with
-                # any memory budget, between energy evaluations
-                ops.append({"op": "gvxc", "model": ops[-1]["model"], "mol": ops[-1]["mol"], "grid": ops[-1]["grid"], "calc": ops[-1]["calc"], "dms": [rng.below(3) for _ in range(rng.weighted([(1, 3), (2, 3), (3, 1)]))], "max_memory": rng.choice(MAXMEMS[:5])})
+                # any memory budget, between energy evaluations; all four drivers: restricted /
+                # unrestricted, without / with grid response (the latter two take one matrix)
+                gop = {"op": "gvxc", "model": ops[-1]["model"], "mol": ops[-1]["mol"], "grid": ops[-1]["grid"], "calc": ops[-1]["calc"], "dms": [rng.below(3) for _ in range(rng.weighted([(1, 3), (2, 3), (3, 1)]))], "max_memory": rng.choice(MAXMEMS[:5])}
+                gop["resp"] = bool(rng.chance(0.45))
+                # the force request of the *other* spin treatment than the energy call before it
+                # (ks.to_uks() / to_rks() objects share the calculator's integrator), on purpose
+                gop["uks"] = (not ops[-1]["uks"]) if rng.chance(0.5) else bool(ops[-1]["uks"])
+                if gop["resp"] or gop["uks"]:
+                    gop["dms"] = gop["dms"][:1]
+                ops.append(gop)
             if rng.chance(0.1):
                 # a density far outside the range the settings were built for (poor initial guess):
                 # fresh objects reject it with the documented error, and so must long-lived ones;
@@ -609,7 +617,7 @@ def exec_ni_history(hist, rp):
             stats["grids_dropped_and_collected"] += 1
             continue
         if c == "gvxc":
-            from ciderpress.pyscf import rks_grad
+            from ciderpress.pyscf import rks_grad, uks_grad
 
             mi, k, gi = op["model"], op["mol"], op["grid"]
             ckg = (mi, op.get("calc", 0))
@@ -619,39 +627,62 @@ def exec_ni_history(hist, rp):
             ks, g, mol = calcs[ckg], gridobjs[gkg], U.mol(k)
             if U.model(mi).settings.has_sdmx:
                 continue  # the gradient code rejects SDMX features (NotImplementedError)
-            dms_g = np.stack([np.array(U.dm(k, 1, j), copy=True) for j in op["dms"]])
-            arg_g = dms_g if len(op["dms"]) > 1 else dms_g[0]
+            g_uks, g_resp = bool(op.get("uks")), bool(op.get("resp"))
+            gmod = uks_grad if g_uks else rks_grad
+            gfn = gmod.get_vxc_full_response if g_resp else gmod.get_vxc
+            gname = "%s.%s" % ("uks_grad" if g_uks else "rks_grad", "get_vxc_full_response" if g_resp else "get_vxc")
+            nsp = 2 if g_uks else 1
+
+            def gdm(j):
+                return np.array(U.dm(k, nsp, j), copy=True)
+
+            if g_uks:
+                arg_g = gdm(op["dms"][0])
+            else:
+                dms_g = np.stack([gdm(j) for j in op["dms"]])
+                arg_g = dms_g if len(op["dms"]) > 1 else dms_g[0]
             b_g = adigest(arg_g)
             try:
-                _e, vb = rks_grad.get_vxc(ks._numint, mol, g, ks.xc, arg_g, max_memory=op["max_memory"])
+                eb, vb = gfn(ks._numint, mol, g, ks.xc, arg_g, max_memory=op["max_memory"])
             except NotImplementedError:
                 stats["gradient_potential_not_implemented_for_model"] += 1
                 continue
             except Exception as ex:
-                V("call-raises:rks_grad.get_vxc:%s" % type(ex).__name__, "step %d: %s" % (step, str(ex)[:200]))
+                V("call-raises:%s:%s" % (gname, type(ex).__name__), "step %d: %s" % (step, str(ex)[:200]))
                 break
             if adigest(arg_g) != b_g:
-                V("input-mutated:rks_grad.get_vxc:dm", "step %d" % step)
+                V("input-mutated:%s:dm" % gname, "step %d" % step)
             stats["gradient_potential_calls"] += 1
+            stats["gradient_potential_calls_%s" % gname] += 1
             stats["gradient_potential_calls_nset_%d" % len(op["dms"])] += 1
             vb = np.asarray(vb)
             for idx, j in enumerate(op["dms"]):
-                rk = ("gvxc", mi, json.dumps(hist["mols"][k], sort_keys=True), json.dumps(hist["grids"][gi], sort_keys=True), j, op.get("calc", 0) if hist["models"][mi].get("calc1") else 0)
+                rk = ("gvxc", gname, mi, json.dumps(hist["mols"][k], sort_keys=True), json.dumps(hist["grids"][gi], sort_keys=True), j, op.get("calc", 0) if hist["models"][mi].get("calc1") else 0)
                 if rk not in refs:
                     set_perturb(hist["perturb"] ^ 0x5A)
-                    ksr = make_ks(U.fresh_model(mi), U.mol(k, fresh=True), False, hist["grids"][gi], dict(mdesc_of(mi, op.get("calc", 0)), via_file=False))
+                    ksr = make_ks(U.fresh_model(mi), U.mol(k, fresh=True), g_uks, hist["grids"][gi], dict(mdesc_of(mi, op.get("calc", 0)), via_file=False))
                     ksr.build()
                     molr = ksr.mol
                     gr = build_grids(ksr, molr)
-                    refs[rk] = np.array(rks_grad.get_vxc(ksr._numint, molr, gr, ksr.xc, np.array(U.dm(k, 1, j), copy=True))[1], copy=True)
+                    if g_resp:
+                        # forces follow an energy evaluation of the same object (the grid-response
+                        # drivers are never the first request a calculator sees)
+                        (ksr._numint.nr_uks if g_uks else ksr._numint.nr_rks)(molr, gr, ksr.xc, gdm(j))
+                    er, vr = gfn(ksr._numint, molr, gr, ksr.xc, gdm(j))
+                    refs[rk] = (None if er is None else np.array(er, copy=True), np.array(vr, copy=True))
                     set_perturb(hist["perturb"])
                     stats["reference_calls"] += 1
-                got = vb[idx] if len(op["dms"]) > 1 else vb
-                ok, why = close(got, refs[rk])
+                got = vb[idx] if (len(op["dms"]) > 1 and not g_uks) else vb
+                ok, why = close(got, refs[rk][1])
                 stats["comparisons"] += 1
                 if not ok:
                     oracle = "batch_vs_single" if len(op["dms"]) > 1 else "history_vs_fresh"
-                    V("%s:rks_grad.get_vxc:vmat:%s" % (oracle, "single" if len(op["dms"]) == 1 else ("idm<nset-1" if idx < len(op["dms"]) - 1 else "idm=last")), "step %d (%s max_memory=%s): %s" % (step, hist["models"][mi]["settings"], op["max_memory"], why))
+                    V("%s:%s:vmat:%s" % (oracle, gname, "single" if len(op["dms"]) == 1 else ("idm<nset-1" if idx < len(op["dms"]) - 1 else "idm=last")), "step %d (%s max_memory=%s): %s" % (step, hist["models"][mi]["settings"], op["max_memory"], why))
+                if g_resp and refs[rk][0] is not None and eb is not None:
+                    ok, why = close(np.asarray(eb), refs[rk][0])
+                    stats["comparisons"] += 1
+                    if not ok:
+                        V("history_vs_fresh:%s:exc1_grid" % gname, "step %d (%s): %s" % (step, hist["models"][mi]["settings"], why))
             continue
         mi, k, gi, uks = op["model"], op["mol"], op["grid"], op["uks"]
         model = U.model(mi)
